@@ -21,7 +21,7 @@ var c18bridgeOps = []string{
 	"ReorderNext(0,2)", "ReorderNext(1,2)", "ReorderNext(0,1)", "ReorderNext(1,1)", "ReorderNext(0,3)",
 	"Drop(0,0,1)", "Drop(0,1,1)", "Drop(1,0,2)",
 	"Reorder(0)", "Reorder(1)",
-	"Filter(0,odd)",
+	"Filter(0,odd)", "Filter(0,nil)",
 	"Tick", "Process",
 }
 
@@ -179,6 +179,15 @@ func c18bridge(steps, bound, slice int) *explore.Scenario {
 					for x, y := 0, len(m.q[d])-1; x < y; x, y = x+1, y-1 {
 						m.q[d][x], m.q[d][y] = m.q[d][y], m.q[d][x]
 					}
+				case op == "Filter(0,nil)":
+					// a nil callback removes the filter
+					if m.reordN[0] > 0 {
+						script = append(script, "skip")
+						continue
+					}
+					script = append(script, op)
+					br.Filter(0, nil)
+					m.filter[0] = false
 				case strings.HasPrefix(op, "Filter"):
 					if m.reordN[0] > 0 {
 						script = append(script, "skip")
@@ -423,7 +432,7 @@ func init() {
 			}
 			return []*explore.Scenario{c18bridge(5, 0, 8), c18bridge(4, 0, 2), c18bridge(3, 0, 0), c18bridge(3, 1, 8), c18dpipe(6)}
 		},
-		Rule: "Bridge: every script of the stated length over {writes of 0/1/3-byte messages in both directions, DropNextNWrites, ReorderNextNWrites (1,2,3; also repeated), Drop, Reorder, Filter, Tick, Process} with parked reader threads (slices of 0, 2, 8 bytes), compared per endpoint with a script interpreter; dpipe: every script over {writes both ways incl. empty, reads with short/long slices, Close of either end, filling the 1000-message buffer}",
+		Rule: "Bridge: every script of the stated length over {writes of 0/1/3-byte messages in both directions, DropNextNWrites, ReorderNextNWrites (1,2,3; also repeated), Drop, Reorder, Filter (set and cleared), Tick, Process} with parked reader threads (slices of 0, 2, 8 bytes), compared per endpoint with a script interpreter; dpipe: every script over {writes both ways incl. empty, reads with short/long slices, Close of either end, filling the 1000-message buffer}",
 		Assumptions: []string{"precedence between a reorder window and a drop window or filter, and Drop with an offset beyond the queue, are not specified by the property: such steps are skipped; a drop window counts calls of Write (a write is delivered iff it is outside the window and passes the filter); ReorderNextNWrites re-armed while a window is partly collected: messages are compared as a multiset for that direction (nothing lost, duplicated or invented; order within the merged window unspecified)",
 			"a one-message reordering delivers that message (reversal of one element)"}})
 }
